@@ -217,6 +217,30 @@ def sql_file_family():
     return out
 
 
+def adjacent_sql_family():
+    """SQLMutations next to each other (in one evolution, and at the end of one evolution / start of the next is the
+    same list of pending mutations), alone and around a model mutation: each statement is previewed once and executed
+    once"""
+    base = {'name': 'Alpha', 'table': 'vapp_alpha', 'unique_together': [], 'index_together': [], 'indexes': [],
+            'constraints': [], 'fields': [fld('id', 'AutoField', primary_key=True), fld('a', 'IntegerField', null=True),
+                                          fld('b', 'IntegerField', null=True)]}
+    spec0 = {'apps': [{'id': 'vapp', 'models': [base]}]}
+    def sq(tag, stmt):
+        return {'t': 'SQLMutation', 'tag': tag, 'sql': [stmt], 'can_simulate': True}
+    s1 = sq('fill_a', 'UPDATE vapp_alpha SET a = 1;')
+    s2 = sq('bump_b', 'UPDATE vapp_alpha SET b = COALESCE(b, 0) + 1;')
+    s3 = sq('bump_a', 'UPDATE vapp_alpha SET a = a + 1;')
+    out = []
+    for muts in ([s1, s2], [s1, s2, s3]):
+        out.append({'spec0': spec0, 'spec1': spec0, 'muts': muts, 'rows': True, 'family': 'adjacent-sql'})
+    m1 = dict(base, fields=base['fields'] + [fld('n', 'IntegerField', null=True)])
+    out.append({'spec0': spec0, 'spec1': {'apps': [{'id': 'vapp', 'models': [m1]}]},
+                'muts': [{'t': 'AddField', 'model': 'Alpha', 'field': 'n', 'ftype': 'IntegerField', 'initial': None,
+                          'attrs': [['null', 'true']]}, s2, s3],
+                'rows': True, 'family': 'adjacent-sql'})
+    return out
+
+
 def flat(groups):
     return [s for g in groups for s in g[1]]
 
@@ -255,7 +279,7 @@ def run(ctx):
                 '`evolve --execute`; non-trivial = the preview has at least one statement' % len(seeds))
     flag = ctx.variant.get('together_iteration')
     n = 82 if quick else 600
-    cases = [{'case': c, 'seed': i} for i, c in enumerate(together_family() + index_family() + delete_m2m_family() + custom_field_family() + sql_file_family() + bound_value_family() + delete_model_family() + two_app_family())]
+    cases = [{'case': c, 'seed': i} for i, c in enumerate(together_family() + index_family() + delete_m2m_family() + custom_field_family() + sql_file_family() + bound_value_family() + delete_model_family() + two_app_family() + adjacent_sql_family())]
     tries = 0
     while len(cases) < n + 10 and tries < n * 6:
         tries += 1
@@ -300,7 +324,7 @@ def run(ctx):
             if r['preview_status'] != 'ok' and r['execute_status'] != 'ok':
                 ctx.count('both_rejected')
                 if case.get('family') in ('delete-m2m', 'delete-model-next-to-a-change', 'bound-values', 'sql_files',
-                                          'two-apps-not-alphabetical'):
+                                          'two-apps-not-alphabetical', 'adjacent-sql'):
                     # these upgrades are valid by construction
                     ctx.fail(None, 'a valid upgrade is refused by the preview (%s) and by the execution (%s)'
                              % (r['preview_error'], r['execute_error']), rr)
